@@ -76,10 +76,17 @@ OV_MCREW = dict(name="mcrew", files={
     "_overlay/mcrew/zz_verif_c16_test.go": "cmd/mcrew/zz_verif_c16_test.go",
     "_overlay/mcrew/zz_verif_c17_test.go": "cmd/mcrew/zz_verif_c17_test.go",
 })
+reg("C17sio", "./checks/sio", "^TestC17", race=True, shards=(16, 16),
+    assumptions=["sio: the harness plays the crew loop (it owns the input channel), so 'during the firing' is entered deterministically; a second check runs the real Crew.Loop under the race detector",
+                 "sio: the timers machine's reply to a request is read from its bindings; a second request for an id that is still pending is not generated"])
+CHECKS["C17sio"]["subchecks"] = ["sio", "sioloop"]
 OV_MCREW_RACE = dict(OV_MCREW, name="mcrew-race")
-reg("C17", "./cmd/mcrew", "^TestC17", overlay=OV_MCREW_RACE, race=True, shards=(16, 16), timeout=(900, 5400),
+reg("C17", None, None, level="exploration")
+CHECKS["C17"]["parts"] = ["C17mcrew", "C17sio"]
+reg("C17mcrew", "./cmd/mcrew", "^TestC17", overlay=OV_MCREW_RACE, race=True, shards=(16, 16), timeout=(900, 5400),
     assumptions=["real time: 'never fires' is judged 2.5 s after the last due time; late is not wrong",
                  "interleavings between timer goroutines and the requester are sampled; the 'cancel exactly at due' window is hit probabilistically"])
+CHECKS["C17mcrew"]["subchecks"] = ["mcrew"]
 reg("C16", "./cmd/mcrew", "^TestC16", overlay=OV_MCREW, shards=(4, 16), level="fault_enumeration",
     assumptions=["bolt's transaction is the trusted base: a crash is modelled at operation boundaries, faults as a closed store or a rejected key",
                  "interleavings of concurrent clients are sampled"])
@@ -251,11 +258,53 @@ def write_evidence(pid, cfg, tier, seed, subs, wall, violations, inconclusive, e
 
 def run_check(pid, tier, replay=None):
     cfg = CHECKS[pid]
+    if cfg.get("parts"):
+        return run_parts(pid, cfg, tier, replay)
+    rc, subs, wall, nviol = run_one(pid, cfg, tier, replay)
+    import re as _re
+    if not replay and subs is not None and _re.fullmatch(r"C[0-9]{2,3}", pid):
+        seed = int(os.environ.get("VERIF_SEED", "1") or "1")
+        write_evidence(pid, cfg, tier, seed, subs, wall, nviol, rc == 2)
+    return rc
+
+
+def run_parts(pid, cfg, tier, replay):
+    """A property checked by several test binaries (e.g. both crew hosts)."""
+    t0 = time.time()
+    seed = int(os.environ.get("VERIF_SEED", "1") or "1")
+    rcs, allsubs, nviol = [], {}, 0
+    for part in cfg["parts"]:
+        pc = CHECKS[part]
+        if replay:
+            # a replay file names its sub-check; run the part that has it
+            try:
+                name = json.load(open(replay)).get("check", "")
+            except Exception:
+                name = ""
+            if name not in pc.get("subchecks", []):
+                continue
+        rc, subs, wall, nv = run_one(pid, pc, tier, replay)
+        rcs.append(rc)
+        nviol += nv
+        if subs:
+            allsubs.update(subs)
+    if not rcs:
+        log("no part of %s knows the sub-check of this replay file" % pid)
+        return 2
+    rc = 1 if 1 in rcs else (2 if 2 in rcs else 0)
+    if not replay:
+        merged = dict(cfg)
+        merged["assumptions"] = sum((CHECKS[p]["assumptions"] for p in cfg["parts"]), [])
+        write_evidence(pid, merged, tier, seed, allsubs, time.time() - t0, nviol, rc == 2)
+    return rc
+
+
+def run_one(pid, cfg, tier, replay=None):
     seed = int(os.environ.get("VERIF_SEED", "1") or "1")
     t0 = time.time()
     binary = build(cfg)
     if binary is None:
-        return 2
+        return 2, None, 0.0, 0
     nshards = cfg["shards"][0 if tier == "quick" else 1]
     timeout = cfg["timeout"][0 if tier == "quick" else 1]
     if replay:
@@ -375,14 +424,12 @@ def run_check(pid, tier, replay=None):
             log("inconclusive: no statistics were written")
         rc = 2
     wall = time.time() - t0
-    if not replay:
-        write_evidence(pid, cfg, tier, seed, subs, wall, len(violations), rc == 2)
     ev = sum(s["evaluations"] for s in subs.values())
     log("%s %s: %d cases, %d distinct non-trivial, %d shard(s), %.1fs -> %s" % (
         pid, tier, ev, sum(len(s["hashes"]) for s in subs.values()), nshards, wall,
         {0: "held", 1: "VIOLATED", 2: "INCONCLUSIVE"}[rc]))
     shutil.rmtree(work, ignore_errors=True)
-    return rc
+    return rc, subs, wall, len(violations)
 
 
 def main(argv):
@@ -390,6 +437,8 @@ def main(argv):
         rc = 0
         seen = set()
         for pid, cfg in CHECKS.items():
+            if not cfg["pkg"]:
+                continue
             key = binpath(cfg)
             if key in seen:
                 continue
